@@ -473,104 +473,165 @@ func (s *crSess) judgeDir(d, names string, acked, issued int, exact bool, prop s
 	}
 	next := badger.VerifNextTxnTs(db)
 	stored := crDumpDB(db)
-	// a timestamp can be handed out twice in one session: when a compaction has dropped every
-	// entry of the newest commits, a reopen restarts nextTxnTs below them. A stored version
-	// belongs to the newest commit with that timestamp issued before the crash point.
-	verTo := map[uint64]int{}
-	for i, c := range s.commits {
-		if old, ok := verTo[c.ts]; ok && i >= issued && old < issued {
-			continue
-		}
-		verTo[c.ts] = i
+	// Which stored versions are legal: every stored (key, version) must be a write of a commit
+	// issued before the crash point, with that commit's value. (A timestamp can be handed out
+	// twice in one session — a compaction drops every entry of the newest commits and a reopen
+	// restarts nextTxnTs below them — so a version is looked up among all commits carrying it.)
+	if issued > len(s.commits) {
+		issued = len(s.commits)
 	}
-	m := 0
+	if acked > issued {
+		acked = issued
+	}
+	type kv struct {
+		key string
+		ver uint64
+	}
+	byVer := map[kv][]int{}
+	for i, c := range s.commits {
+		for _, e := range c.ents {
+			k := kv{string(e.key), c.ts}
+			byVer[k] = append(byVer[k], i)
+		}
+	}
 	var maxVer uint64
 	for _, e := range stored {
 		if e.ver > maxVer {
 			maxVer = e.ver
 		}
-		ci, ok := verTo[e.ver]
-		if !ok {
-			fail(prop+"-unknown-version", fmt.Sprintf("stored entry %s@%d belongs to no issued commit", hx([]byte(e.key)), e.ver))
+		cands := byVer[kv{e.key, e.ver}]
+		if len(cands) == 0 {
+			fail(prop+"-unknown-version", fmt.Sprintf("stored entry %s@%d belongs to no commit", hx([]byte(e.key)), e.ver))
 			continue
 		}
-		if ci+1 > m {
-			m = ci + 1
+		okc := false
+		for _, ci := range cands {
+			if ci >= issued {
+				continue
+			}
+			for _, w := range s.commits[ci].ents {
+				if string(w.key) == e.key && w.del == e.del && (w.del || bytes.Equal(w.val, e.val)) {
+					okc = true
+				}
+			}
+		}
+		switch {
+		case cands[0] >= issued:
+			fail(prop+"-future", fmt.Sprintf("stored entry %s@%d belongs to commit #%d, only %d commits had been issued", hx([]byte(e.key)), e.ver, cands[0]+1, issued))
+		case e.rderr != "":
+			fail(prop+"-vlog-read", fmt.Sprintf("value of %s@%d unreadable: %s", hx([]byte(e.key)), e.ver, e.rderr))
+		case !okc:
+			fail(prop+"-wrong-value", fmt.Sprintf("%s@%d holds del=%v %s, which no commit wrote at that version", hx([]byte(e.key)), e.ver, e.del, hx(e.val)))
 		}
 	}
 	v.out = fmt.Sprintf("ok next=%d n=%d h=%016x", next, len(stored), fnv64(crCanon(stored)))
-	if m < acked {
-		fail(prop+"-lost-acked", fmt.Sprintf("recovered state holds commits[:%d] but %d commits were acknowledged (first lost: ts=%d)", m, acked, s.commits[m].ts))
-	}
-	if m > issued {
-		fail(prop+"-future", fmt.Sprintf("recovered state holds %d commits, only %d had been issued", m, issued))
-	}
-	// expected writes of commits[:m]
-	type kv struct {
-		key string
-		ver uint64
-	}
-	want := map[kv]crEnt{}
-	latest := map[string]crEnt{}
-	var wantKeys []string
-	for _, c := range s.commits[:min(m, len(s.commits))] {
+	// the visible state: a read of every key at the newest timestamp
+	keySet := map[string]bool{}
+	for _, c := range s.commits[:issued] {
 		for _, e := range c.ents {
-			want[kv{string(e.key), c.ts}] = e
-			if _, ok := latest[string(e.key)]; !ok {
-				wantKeys = append(wantKeys, string(e.key))
-			}
-			latest[string(e.key)] = e
+			keySet[string(e.key)] = true
 		}
 	}
-	have := map[kv]bool{}
-	for _, e := range stored {
-		w, ok := want[kv{e.key, e.ver}]
-		have[kv{e.key, e.ver}] = true
-		if !ok {
-			continue
-		}
-		if e.rderr != "" {
-			fail(prop+"-vlog-read", fmt.Sprintf("value of %s@%d unreadable: %s", hx([]byte(e.key)), e.ver, e.rderr))
-		} else if e.del != w.del || (!w.del && !bytes.Equal(e.val, w.val)) {
-			fail(prop+"-wrong-value", fmt.Sprintf("%s@%d holds del=%v %s, committed del=%v %s", hx([]byte(e.key)), e.ver, e.del, hx(e.val), w.del, hx(w.val)))
-		}
+	var wantKeys []string
+	for k := range keySet {
+		wantKeys = append(wantKeys, k)
 	}
-	if exact {
-		for k := range want {
-			if !have[k] {
-				tag := prop + "-missing-entry"
-				if verTo[k.ver] == m-1 {
-					tag = prop + "-partial-txn"
-				}
-				fail(tag, fmt.Sprintf("%s@%d of commits[:%d] is not in the recovered state", hx([]byte(k.key)), k.ver, m))
-				break
-			}
-		}
-	}
-	// visible state: a read of every key at the newest timestamp
 	sort.Strings(wantKeys)
+	type got struct {
+		found bool
+		val   []byte
+		err   string
+	}
+	gets := map[string]got{}
 	_ = db.View(func(txn *badger.Txn) error {
 		for _, k := range wantKeys {
-			w := latest[k]
 			it, err := txn.Get([]byte(k))
 			switch {
 			case err == badger.ErrKeyNotFound:
-				if !w.del {
-					fail(prop+"-partial-txn", fmt.Sprintf("Get(%s) not found; commits[:%d] leave %s", hx([]byte(k)), m, hx(w.val)))
-				}
+				gets[k] = got{}
 			case err != nil:
-				fail(prop+"-read", fmt.Sprintf("Get(%s): %v", hx([]byte(k)), err))
+				gets[k] = got{err: err.Error()}
 			default:
 				val, verr := it.ValueCopy(nil)
 				if verr != nil {
-					fail(prop+"-vlog-read", fmt.Sprintf("Get(%s) value: %v", hx([]byte(k)), verr))
-				} else if w.del || !bytes.Equal(val, w.val) {
-					fail(prop+"-partial-txn", fmt.Sprintf("Get(%s)=%s@%d; commits[:%d] leave del=%v %s", hx([]byte(k)), hx(val), it.Version(), m, w.del, hx(w.val)))
+					gets[k] = got{err: verr.Error()}
+				} else {
+					gets[k] = got{found: true, val: val}
 				}
 			}
 		}
 		return nil
 	})
+	for _, k := range wantKeys {
+		if g := gets[k]; g.err != "" {
+			fail(prop+"-read", fmt.Sprintf("Get(%s): %s", hx([]byte(k)), g.err))
+		}
+	}
+	have := map[kv]bool{}
+	for _, e := range stored {
+		have[kv{e.key, e.ver}] = true
+	}
+	// does the recovered state equal commits[:m]? (first mismatch, "" when it does)
+	matches := func(m int) string {
+		latest := map[string]crEnt{}
+		for _, c := range s.commits[:m] {
+			for _, e := range c.ents {
+				latest[string(e.key)] = e
+			}
+		}
+		for _, k := range wantKeys {
+			w, ok := latest[k]
+			g := gets[k]
+			wantFound := ok && !w.del
+			if g.found != wantFound || (wantFound && !bytes.Equal(g.val, w.val)) {
+				return fmt.Sprintf("Get(%s) = found:%v %s; commits[:%d] leave found:%v %s", hx([]byte(k)), g.found, hx(g.val), m, wantFound, hx(w.val))
+			}
+		}
+		if exact {
+			n := 0
+			for _, c := range s.commits[:m] {
+				for _, e := range c.ents {
+					if !have[kv{string(e.key), c.ts}] {
+						return fmt.Sprintf("%s@%d of commits[:%d] is not in the recovered state", hx(e.key), c.ts, m)
+					}
+					n++
+				}
+			}
+			for _, e := range stored {
+				in := false
+				for _, ci := range byVer[kv{e.key, e.ver}] {
+					if ci < m {
+						in = true
+					}
+				}
+				if !in {
+					return fmt.Sprintf("stored %s@%d is not a write of commits[:%d]", hx([]byte(e.key)), e.ver, m)
+				}
+			}
+		}
+		return ""
+	}
+	m := -1
+	for c := issued; c >= acked; c-- {
+		if matches(c) == "" {
+			m = c
+			break
+		}
+	}
+	if m < 0 {
+		lower := -1
+		for c := acked - 1; c >= 0; c-- {
+			if matches(c) == "" {
+				lower = c
+				break
+			}
+		}
+		if lower >= 0 {
+			fail(prop+"-lost-acked", fmt.Sprintf("recovered state equals commits[:%d] but %d commits were acknowledged (first lost: ts=%d)", lower, acked, s.commits[lower].ts))
+		} else {
+			fail(prop+"-partial-txn", fmt.Sprintf("recovered state is no prefix of the commit order (acked %d, issued %d): %s", acked, issued, matches(acked)))
+		}
+	}
 	// C11: the next commit's timestamp is above every stored version and its write shadows
 	if next <= maxVer {
 		fail("C11-next-ts", fmt.Sprintf("nextTxnTs=%d after reopen, stored max version %d", next, maxVer))
@@ -579,6 +640,7 @@ func (s *crSess) judgeDir(d, names string, acked, issued int, exact bool, prop s
 	if len(wantKeys) > 0 {
 		probe = []byte(wantKeys[0])
 	}
+	_ = m
 	nv := []byte("c11-probe")
 	if err := db.Update(func(txn *badger.Txn) error { return txn.Set(probe, nv) }); err != nil {
 		fail("C11-commit", fmt.Sprintf("commit after reopen: %v", err))
@@ -1046,8 +1108,31 @@ func genCrashSession(rng *rand.Rand, st *Stats) []string {
 	if memsz <= 8192 && thr == 200 {
 		burstAt = rng.Intn(nsteps)
 	}
+	gcAt := -1
+	if vmax <= 5 && thr <= 32 && params["mode"] != "power" {
+		gcAt = rng.Intn(nsteps)
+	}
 	for i := 0; i < nsteps; i++ {
 		r := rng.Intn(100)
+		if i == gcAt {
+			// value-log values until the value log has rotated, a few later small commits (the
+			// newest versions, in the WAL only), then GC of the oldest value-log file: its live
+			// entries come back at the WAL tail with their old versions
+			for j := 0; j < vmax+2+rng.Intn(3); j++ {
+				v := make([]byte, thr+rng.Intn(30))
+				rng.Read(v)
+				v[len(v)-1] |= 1
+				ops = append(ops, fmt.Sprintf("commit %s:0:%s", hx(keys[rng.Intn(len(keys))]), hx(v)))
+			}
+			for j := 0; j < 1+rng.Intn(3); j++ {
+				ops = append(ops, fmt.Sprintf("commit %s:0:%s", hx(keys[rng.Intn(len(keys))]), hx([]byte{byte(1 + rng.Intn(200))})))
+			}
+			ops = append(ops, "gc")
+			if rng.Intn(2) == 0 {
+				ops = append(ops, fmt.Sprintf("commit %s:0:%s", hx(keys[rng.Intn(len(keys))]), hx([]byte{byte(1 + rng.Intn(200))})))
+			}
+			continue
+		}
 		if i == burstAt {
 			r = 70
 		}
@@ -1106,11 +1191,11 @@ func genCrashSession(rng *rand.Rand, st *Stats) []string {
 			}
 		case r < 80:
 			ops = append(ops, "flush")
-		case r < 88:
-			ops = append(ops, fmt.Sprintf("compact pick=%d", rng.Intn(4)))
 		case r < 84 && vmax <= 5 && params["mode"] != "power":
 			// value-log GC of the oldest file: old versions are written back at the WAL tail
 			ops = append(ops, "gc")
+		case r < 88:
+			ops = append(ops, fmt.Sprintf("compact pick=%d", rng.Intn(4)))
 		case r < 88+pReopen:
 			ops = append(ops, "reopen")
 		case r < 88+pReopen+pC07:
@@ -1907,7 +1992,6 @@ func (s *crSess) gc(emit func(string, string), fail func(string)) {
 			fmt.Sscanf(strings.TrimPrefix(e.tok, "write:vlog"), "%d", &newFid)
 			if mi < len(moved) {
 				s.vlogOf[moved[mi]] = newFid
-				s.vlogOrder = append(s.vlogOrder, moved[mi])
 				mi++
 			}
 		case e.Kind == badger.VevCreate && strings.HasSuffix(e.file, ".mem"):
@@ -1921,6 +2005,18 @@ func (s *crSess) gc(emit func(string, string), fail func(string)) {
 			}
 		}
 	}
+	// the moved records now sit at the end of the value log, in the order they were moved
+	isMoved := map[string]bool{}
+	for _, k := range moved {
+		isMoved[k] = true
+	}
+	var order []string
+	for _, k := range s.vlogOrder {
+		if !isMoved[k] {
+			order = append(order, k)
+		}
+	}
+	s.vlogOrder = append(order, moved...)
 	js := func(xs []int) string {
 		var p []string
 		for _, x := range xs {
